@@ -51,6 +51,9 @@ def main(argv):
     if cmd == "check":
         from . import check
         return check.main(args)
+    if cmd == "selftest":
+        from . import selftest
+        return selftest.main(args)
     if cmd == "explain":
         import json
         d = json.load(open(args[0]))
